@@ -237,9 +237,17 @@ parser! {
             // End pragma hack
             / ol: directive_op() ** delimiter() { DirectiveOps::OpList(ol) }
 
-        // directive line
+        // directive operands separated by commas
+        rule comma_ops() -> DirectiveOps
+            = a:e_ident() space() "=" space() e:expr() { DirectiveOps::Assign(a, e) }
+            / ol: directive_op() ** delimiter() { DirectiveOps::OpList(ol) }
+
+        // directive line, only the operands of a pragma may be separated by blanks
         pub rule directive_line() -> Document
-            = l:label()? space() d:directive() space() os:directive_ops() space() comment()? { Document::DirectiveLine(Box::new(l), d, os) }
+            = l:label()? space() d:directive() space() os:directive_ops() space() comment()? {?
+                if d == Directive::Pragma { Ok(Document::DirectiveLine(Box::new(l), d, os)) } else { Err("\",\"") }
+            }
+            / l:label()? space() d:directive() space() os:comma_ops() space() comment()? { Document::DirectiveLine(Box::new(l), d, os) }
 
         // line
         pub rule line() -> Document
